@@ -230,6 +230,44 @@ def laws(report, rng, t, inp):
                 report.fail('C10:set-changes-other-element', 'set_value(%r) changed elements %r of the segment' % (p, diff), dict(inp, path=p))
         if old is not None:
             t.set_value(p, old)
+    # L1b a set far past the end of a segment creates blank elements on the way; a later write into one of them changes that one only
+    import copy as _copy
+    cands = [(loops, sg) for loops, sg, _t in first_instances(t) if sg is not None and len(sg.seg_data) + 4 <= 99]
+    rng.shuffle(cands)
+    for loops, sg in cands[:2]:
+        c = _copy.copy(t)
+        sid = sg.seg_data.get_seg_id()
+        n = len(sg.seg_data)
+        far = n + rng.choice([3, 4, 5])
+        slot = rng.randint(n + 1, far - 1)
+        sub = rng.choice([1, 2, 3])
+        p_far = '/'.join(loops + ['%s%02i' % (sid, far)])
+        p_slot = '/'.join(loops + ['%s%02i-%i' % (sid, slot, sub)])
+        report.case(('pad-set', inp['text'], inp['loop_id'], p_far, p_slot))
+        report.count('law:set-in-padding')
+        try:
+            c.set_value(p_far, 'FAR')
+            before = dump(c)
+            c.set_value(p_slot, 'Q')
+            after = dump(c)
+            got = c.get_value(p_slot)
+        except Exception as ex:  # noqa
+            report.fail('C10:oracle-raised:%s' % type(ex).__name__, 'set_value past the end of a segment raised %s' % type(ex).__name__, dict(inp, path=p_slot))
+            continue
+        if got != 'Q':
+            report.fail('C10:set-get:padding', 'set_value(%r, %r) then get_value gives %r' % (p_slot, 'Q', got), dict(inp, path=p_slot, first_set=p_far))
+        changed = [k for k, (a, b) in enumerate(zip(before, after)) if a != b]
+        if len(before) != len(after) or len(changed) != 1:
+            report.fail('C10:set-changes-others:padding', 'set_value(%r) changed %d segments' % (p_slot, len(changed)), dict(inp, path=p_slot, first_set=p_far))
+        else:
+            a, b = before[changed[0]][:-1].split('*'), after[changed[0]][:-1].split('*')
+            m = max(len(a), len(b))
+            a += [''] * (m - len(a))
+            b += [''] * (m - len(b))
+            diff = [x for x in range(m) if a[x] != b[x]]
+            if diff != [slot]:
+                report.fail('C10:set-changes-other-element:padding', 'after set_value(%r), set_value(%r) changed elements %r of the segment' % (
+                    p_far, p_slot, diff), dict(inp, path=p_slot, first_set=p_far))
     # L2 exists / count / first / select agree
     paths = []
     for loops, sg, target in first_instances(t)[:60]:
